@@ -17,16 +17,23 @@ LEAN_TARGETS = ["Asynkit.Props.C06", "Asynkit.Lemmas.GenEqC06"]
 PROPS_FILES = ["Asynkit/Props/C06.lean", "Asynkit/Lemmas/GenEqC06.lean"]
 DRIVERS = ["AsyncGen"]
 TRUSTED = [
-    "Lean 4.33 kernel; axioms ⊆ {propext, Classical.choice, Quot.sound} (audited per theorem each run)",
-    "hand-written model Asynkit/Model/AsyncGen.lean `goi` (monitor.py:283-424) over Asynkit/Model/Monitor.lean "
-    "(monitor.py:50-222), tied to the code by the op-by-op correspondence of this run (lean/Drivers/AsyncGen.lean)",
-    "`nativeAG` = reference model of CPython 3.12 async generators (genobject.c async_gen_asend/athrow, "
-    "ag_running_async, ag_closed, PEP 479/525): modelled, not verified; validated against the interpreter by "
-    "its own correspondence stream in this run",
-    "the oracle is CPython itself: the native async generator compiled from the same AST",
-    "asyncio Task stepping is outside the model; Task-driven runs are compared native-vs-GOI and against the raw run",
+    'Lean 4.33 kernel; axioms ⊆ {propext, Classical.choice, Quot.sound} (audited per theorem each run)',
+    'translated, not trusted: GeneratorObject.ayield and '
+    'GeneratorObjectIterator._first_iter/__del__/__anext__/asend/athrow/aclose/_athrow are re-translated from '
+    'monitor.py on every run, entry and resumption segments (translator/monitor2lean.py -> Gen/Monitor.lean), and'
+    ' proved equal to the goiStart/goiResume/hook transitions of Asynkit/Model/AsyncGen.lean '
+    '(Lemmas/GenEqC06.lean, 22 theorems, over GenEqC07)',
+    'hand-written: the runtime vocabulary Model/MonitorRt.lean (except-clause tests, coro.send/throw/close of the'
+    ' driven coroutine, the asyncgen-hooks environment); the op-by-op correspondence of this run '
+    '(lean/Drivers/AsyncGen.lean) still runs model and code side by side',
+    '`nativeAG` = reference model of CPython 3.12 async generators (genobject.c async_gen_asend/athrow, '
+    'ag_running_async, ag_closed, PEP 479/525): modelled, not verified; validated against the interpreter by its '
+    'own correspondence stream in this run',
+    'the oracle is CPython itself: the native async generator compiled from the same AST',
+    'asyncio Task stepping is outside the model; Task-driven runs are compared native-vs-GOI and against the raw '
+    'run',
     "asyncgen hooks: CPython's async_gen_init_hooks/_PyGen_Finalize are modelled (nativeHookCall/nativeHookGC), "
-    "validated by the hook stream of this run",
+    'validated by the hook stream of this run',
 ]
 ASSUMPTIONS = [
     "StopIteration/StopAsyncIteration are not thrown in (excluded by the property)",
